@@ -250,8 +250,6 @@ def _est(st, dom, idxs):
                 if di > 0 and not pa:
                     continue
                 for config in CONFIGS:
-                    if weighted and config == "bdeu5dict":
-                        continue
                     case = {"part": "est", "dom": list(dom), "set": list(idxs), "site": "estimate_cpd", "node": v, "dag": di, "config": config, "variant": variant}
                     st.evals += 1
                     st.transitions += 1
@@ -284,7 +282,7 @@ def _fit(st, dom, idxs):
     sn = {c: states[i] for i, c in enumerate(COLS)}
     st.states += 1
     for ei, edges in enumerate(all_dags(3)):
-        for variant in ("fit", "fit-bayes", "dagfit", "rows-reversed", "cols-permuted", "edges-reversed"):
+        for variant in ("fit", "fit-bayes", "dagfit", "rows-reversed", "cols-permuted", "edges-reversed", "fit-weighted", "fit-bayes-weighted", "fit-dir-weighted"):
             case = {"part": "fit", "dom": list(dom), "set": list(idxs), "site": "model.fit", "dag": ei, "variant": variant}
             d2 = df
             order = list(edges)
@@ -297,8 +295,24 @@ def _fit(st, dom, idxs):
             st.evals += 1
             st.transitions += 1
             pseudo_fn = None
+            weights = [F(1)] * len(data)
             try:
-                if variant == "dagfit":
+                if variant.endswith("-weighted"):
+                    # weighted rows through the model-level entry points (get_parameters forwards `weighted`)
+                    ws = [F(2), F(1, 2), F(1), F(3)]
+                    weights = [ws[i % 4] for i in range(len(data))]
+                    d2 = df.copy()
+                    d2["_weight"] = [float(w) for w in weights]
+                    model = mk_model(edges, order)
+                    if variant == "fit-weighted":
+                        model.fit(d2, state_names=sn, weighted=True)
+                    elif variant == "fit-bayes-weighted":
+                        model.fit(d2, estimator=BayesianEstimator, prior_type="K2", state_names=sn, weighted=True)
+                        pseudo_fn = lambda v, pa: {j: [F(1)] * dom[v] for j in product(*[range(dom[p]) for p in pa])}
+                    else:
+                        model.fit(d2, estimator=BayesianEstimator, prior_type="dirichlet", pseudo_counts=0.5, state_names=sn, weighted=True)
+                        pseudo_fn = lambda v, pa: {j: [F(1, 2)] * dom[v] for j in product(*[range(dom[p]) for p in pa])}
+                elif variant == "dagfit":
                     dag = DAG()
                     dag.add_nodes_from(COLS)
                     dag.add_edges_from([(COLS[a], COLS[b]) for a, b in edges])
@@ -319,7 +333,7 @@ def _fit(st, dom, idxs):
                 st.violation("model.fit", "fitted-model-invalid", case, None, None)
             for v in range(3):
                 pa = sorted(a for a, b in edges if b == v)
-                ref = ref_cpd(data, [F(1)] * len(data), v, pa, dom, pseudo_fn(v, pa) if pseudo_fn else None)
+                ref = ref_cpd(data, weights, v, pa, dom, pseudo_fn(v, pa) if pseudo_fn else None)
                 try:
                     d = cmp_cpd(model.get_cpds(COLS[v]), ref, v, pa, states)
                 except Exception as ex:
